@@ -132,7 +132,7 @@ def run(ctx):
             ctx.count("boundary_values")
         for i, v in enumerate(gen.nonplain_atoms()):
             check_encode(ctx, brine, v, "zoo[%d]" % i)
-    n_enc = ctx.budget(14000, 2000000)
+    n_enc = ctx.budget(14000, 12000000)
     for i in range(n_enc):
         v = gen.gen_plain(rng)
         check_encode(ctx, brine, v, "plain#%d" % i)
@@ -150,7 +150,7 @@ def run(ctx):
             ctx.sample({"nonplain": repr(v)[:200]})
     pool += [refcodec.encode(v) for v in gen.boundary_values(surrogates=False)[:120] if True]
     pool = [p for p in pool if len(p) < 5000] or [b"\x00"]
-    n_dec = ctx.budget(20000, 2000000)
+    n_dec = ctx.budget(20000, 12000000)
     for i in range(n_dec):
         data = gen.gen_hostile_bytes(rng, pool)
         check_decode(ctx, brine, data, "hostile#%d" % i)
